@@ -24,6 +24,7 @@ RULE = (
     "distinct canonical JSON of the case"
 )
 RULE += " " + 'Round 6: every carrier is read a second time after the lists of the first TimingData objects were edited in place (append, delete) - including TimingData(simfile, chart without timing data): the second reading must equal the source again.'
+RULE += " " + 'Round 7: TimingData of a simfile without a single property: no events, offset zero.'
 ASSUMPTIONS = [
     "CPython Fraction and Decimal arithmetic is the reference",
     "msdparser tokenizer is trusted for the simfile -> TimingData path",
